@@ -183,7 +183,7 @@ PROPS = {
     "C13": dict(
         fuzz=['c13.curve<K=3,SO3>', 'c13.curve<K=1,SE2>'], fuzz_seconds=150,
         src=[("props/c13.cpp", 5)],
-        quick_cases=150, thorough_cases=2500, procs=16,
+        quick_cases=50, thorough_cases=2500, procs=16,
         rule="cases are (degree K=1..6, group in {SO3, SE2, SE3, Bundle<SO3,R2>, R3}, N=K+1..30 control points from a random walk with steps < 1.5 rad, t0 in +-1e3, dt in 1e-3..1e2) from a tape; "
              "evaluation at interiors, at interior knots from both sides (1..16 ulp), at t_min/t_max and outside; a replaced control point for locality; a left factor h for equivariance; "
              "non-trivial = evaluation within 16 ulp of an interior knot or a locality case; distinct = hash of decoded values",
@@ -194,8 +194,8 @@ PROPS = {
     ),
     "C14": dict(
         fuzz=['c14.fit_bspline<3,SO3>', 'c14.dubins_curve<3>', 'c14.fit_spline_1d<MinDerivative<6,3,3>>', 'c14.reparameterize_spline'], fuzz_seconds=150,
-        src=[("props/c14.cpp", 5)],
-        quick_cases=250, thorough_cases=4000, procs=16,
+        src=[("props/c14.cpp", 5, ["-DSMOOTH_VERIF"])],  # guarded event hook of reparameterize_spline (MANIFEST.hooks)
+        quick_cases=600, thorough_cases=4000, procs=16,
         rule="cases are data sets of 2..40 strictly increasing time stamps (intervals 1e-2..1e2; uniform, jittered, or ratio walk with neighbouring ratio <= 1e3 / <= 10) with increments or group-valued points "
              "(differences < 2 rad); planar targets from 8 strata (generic, far, near, straight ahead, pure arc, identity, axis aligned, on the 4R boundary) with R in 0.1..10; fit_bspline data incl. the class "
              "'span is an integer multiple of dt'; reparameterisation of Dubins / fitted / FixedCubic-chain curves with generated bounds; non-trivial = >= 3 points with unequal intervals, target off the axes",
@@ -244,7 +244,7 @@ PROPS = {
     ),
     "C18": dict(
         src=[("props/c18.cpp", 1)], san="thread",
-        quick_cases=3, quick_rounds=3, thorough_cases=6, thorough_rounds=14, procs=16,
+        quick_cases=3, quick_rounds=2, thorough_cases=6, thorough_rounds=14, procs=16,
         engines=["rapidcheck (workload generation)", "ThreadSanitizer (g++ -fsanitize=thread)"],
         rule="cases are thread workloads: 2..16 threads released together by a spin barrier, each running a generated list of 1..5 const operations (14 kinds: group / tangent / Bundle / Galilei functions, "
              "rplus/rminus/dof on shared const SubManifold, AnyManifold, std::vector and variant, Spline and BSpline evaluation, sparse derivatives into thread-private outputs, diff::dr, minimize, fit_spline/fit_bspline) "
